@@ -359,17 +359,21 @@ def stub_bodies(text):
             continue
         # the attribute goes before visibility qualifiers
         k = i_fn
+        quals = []
         j = i_fn - 1
         while j >= 0:
             t = toks[j]
             if not t.code:
                 j -= 1
                 continue
-            if t.text in ('pub', 'crate', '(', ')', 'const', 'unsafe', 'super', 'in', 'open', 'closed'):
+            if t.text in ('pub', 'crate', '(', ')', 'const', 'unsafe', 'super', 'in', 'open', 'closed', 'spec', 'proof', 'broadcast', 'uninterp'):
                 k = j
+                quals.append(t.text)
                 j -= 1
                 continue
             break
+        if 'spec' in quals or 'proof' in quals:
+            continue
         edits.append((toks[k].start, toks[k].start, '#[verifier::external_body] '))
         edits.append((toks[bo].start, toks[bc].end, '{ unimplemented!() }'))
         skip_until = toks[bc].end
@@ -387,21 +391,25 @@ def stub_bodies(text):
 # ------------------------------------------------------------------ instantiation (R5)
 
 def instantiate_generic(text, param, ty):
-    """remove generic parameter `param` (with its bound, in <...> or in a where clause) from the
-    first impl/fn header in text, and replace the identifier everywhere by ty"""
+    """remove generic parameter `param` (with its bound, in <...> or in a where clause) from every
+    impl/fn header in text, and replace the identifier everywhere by ty"""
     toks = lex(text)
     code = [t for t in toks if t.code]
-    # locate generics list of the first `impl`
-    i = next(k for k, t in enumerate(code) if t.text in ('impl', 'fn'))
     edits = []
-    if code[i].text == 'fn':
-        i += 1
-    if code[i + 1].text == '<':
+    for i, t0 in enumerate(code):
+        if not (t0.kind == 'ident' and t0.text in ('impl', 'fn')):
+            continue
+        g = i + 1
+        if t0.text == 'fn':
+            g = i + 2
+        if g >= len(code) or code[g].text != '<':
+            continue
         depth = 0
-        j = i + 1
-        parts = []   # (start_tok, end_tok) of each param
+        j = g
+        parts = []
         cur = None
-        while True:
+        ok = True
+        while j < len(code):
             t = code[j]
             if t.text == '<':
                 depth += 1
@@ -415,30 +423,29 @@ def instantiate_generic(text, param, ty):
             elif t.text == ',' and depth == 1:
                 parts.append((cur, j))
                 cur = j + 1
+            elif t.text in '{;':
+                ok = False
+                break
             j += 1
-        gen_open, gen_close = i + 1, j
-        keep = []
-        for a, b in parts:
-            if a < b and code[a].text == param:
-                continue
-            if a < b:
-                keep.append(text[code[a].start:code[b - 1].end])
+        if not ok or not any(a < b and code[a].text == param for a, b in parts):
+            continue
+        keep = [text[code[a].start:code[b - 1].end] for a, b in parts if a < b and code[a].text != param]
         new_gen = ('<' + ', '.join(keep) + '>') if keep else ''
-        edits.append((code[gen_open].start, code[gen_close].end, new_gen))
-    # where clause predicate
-    m = re.search(r'\bwhere\s+' + param + r'\s*:[^{]*?(?=\{)', text)
-    if m:
+        edits.append((code[g].start, code[j].end, new_gen))
+    # where clause predicates on the parameter
+    for m in re.finditer(r'\bwhere\s+' + param + r'\s*:[^{;]*?(?=\{)', text):
         edits.append((m.start(), m.end(), ''))
     edits.sort()
     out = []
     pos = 0
-    for s, e, r in edits:
-        out.append(text[pos:s])
+    for s_, e_, r in edits:
+        if s_ < pos:
+            continue
+        out.append(text[pos:s_])
         out.append(r)
-        pos = e
+        pos = e_
     out.append(text[pos:])
     text = ''.join(out)
-    # replace identifier tokens
     toks = lex(text)
     return ''.join((ty if (t.kind == 'ident' and t.text == param) else t.text) for t in toks)
 
@@ -508,7 +515,7 @@ class Repo:
                 raise GenError('%s: expected one %s, found %d' % (entry.key, loc[0], len(c)))
             a, b = ln(c[0])
             return [Located(c[0].text(), entry.file, a, b)]
-        if loc[0].startswith('impl '):
+        if re.match(r'^impl\b', loc[0]):
             nth = None
             hdr = loc[0]
             m = re.match(r'^(.*)#(\d+)$', hdr)
@@ -596,7 +603,7 @@ def build(entries, verify_units, repo=None, extra_false_ensures=False):
     repo = repo or Repo()
     em = Emitted()
     for e in entries:
-        verify = verify_units is None or e.unit in verify_units
+        verify = (verify_units is None or e.unit in verify_units) and e.opts.get('stub') != 'always'
         code, anns = split_annotations(e.lines)
         located = repo.locate(e)
         first = True
